@@ -856,5 +856,11 @@ V('C20', 'schema-accepts-tuples-as-arrays', 'fire', 'C20.R7', "the schema's arra
 V('C20', 'schema-accepts-tuples-and-merge-checks-user-tuples', 'silent', '', "the schema's array type accepts tuples and the merge length-checks every user-supplied sequence",
   ('src/pyhf/schema/validator.py', '    return isinstance(instance, (list, *tensor.array_types))\n', '    return isinstance(instance, (list, tuple, *tensor.array_types))\n'),
   ('src/pyhf/parameters/utils.py', '            if isinstance(v, tuple):\n                v = list(v)\n', "            if k in paramset_user_configs and isinstance(v, (list, tuple)) and default_v and default_v != 'undefined' and len(v) != len(default_v):\n                raise exceptions.InvalidModel(\n                    f'Incorrect number of values ({len(v)}) for {k} were configured by you, expected {len(default_v)}.'\n                )\n            if isinstance(v, tuple):\n                v = list(v)\n"))
+V('C17', 'schema-values-unique-items', 'fire', 'C17.R8', 'patch value tuples must have pairwise different coordinates',
+  ('src/pyhf/schemas/1.0.0/defs.json', '                                "items": {\n                                    "anyOf": [{"type": "number"}, {"type": "string"}]\n                                }\n', '                                "items": {\n                                    "anyOf": [{"type": "number"}, {"type": "string"}]\n                                },\n                                "uniqueItems": true\n'))
+V('C17', 'schema-values-described', 'silent', '', 'patch value tuples get a description',
+  ('src/pyhf/schemas/1.0.0/defs.json', '                                "items": {\n                                    "anyOf": [{"type": "number"}, {"type": "string"}]\n                                }\n', '                                "items": {\n                                    "anyOf": [{"type": "number"}, {"type": "string"}]\n                                },\n                                "description": "coordinates of the signal point"\n'))
+V('C17', 'schema-values-nonnegative', 'fire', 'C17.R8', 'patch value coordinates must be non-negative',
+  ('src/pyhf/schemas/1.0.0/defs.json', '                                "items": {\n                                    "anyOf": [{"type": "number"}, {"type": "string"}]\n                                }\n', '                                "items": {\n                                    "anyOf": [{"type": "number", "minimum": 0}, {"type": "string"}]\n                                }\n'))
 V("C13", "code4-exponent-mask-strict", "fire", "C13.R3", "code 4 takes exponent 1 (a constant) exactly at |alpha| = alpha0",
   ("src/pyhf/interpolators/code4.py", "            exponents >= self.__alpha0, exponents, self.ones", "            exponents > self.__alpha0, exponents, self.ones"))
